@@ -75,6 +75,10 @@ def attribute(prop, scen, rej):
                 out.add('C01')
         elif g == 'pend':
             out |= {fam, 'C11'} if fam in ('C02', 'C07') else {fam}
+        elif g == 'md':
+            out.add('C04')
+            if fam == 'C05':
+                out.add('C05')   # metadata of one call showing up in another call (shared-object family)
         else:
             out |= GROUP_PROPS.get(g, set())
     if scen.get('rawsrv'):
